@@ -271,7 +271,7 @@ func C10(c *Ctx) *kf.Report {
 	rep := &kf.Report{Property: "C10", Level: "model_checking", Coverage: map[string]any{}}
 	rep.Assumptions = []string{
 		"the Go race detector and the runtime's concurrent-map check are the observation instruments for 'no data race / no crash'",
-		"pass 1 runs without the recorder (its mutex would create happens-before edges); pass 2 records call/return order under one mutex",
+		"pass 1 runs without the recorder (its mutex would create happens-before edges); pass 2 records call/return order under one mutex; the duel phase releases 4 registrants of one fresh name through a spin barrier and records the calls as mutually overlapping (the weakest real-time claim)",
 		"linearizability is checked per name (compositional); class and interface tables form one object per name",
 	}
 	// 1. mechanism: pinned lock modes are refuted, repaired ones hold
@@ -374,6 +374,68 @@ func C10(c *Ctx) *kf.Report {
 			ids = append(ids, fmt.Sprintf("C10/pass=history/mix=%s/obj=%s/run=%d", rc.mix, strings.Split(k, ":")[0], i))
 		}
 	}
+	// 3b. duels: k goroutines are released together by a barrier and register the SAME not-yet-registered name
+	// (function, class, constant). The calls are recorded as mutually overlapping (calls first, returns after: the
+	// weakest real-time claim, so never a false alarm); "a duplicate is rejected for all but one registrant".
+	duels := c.Pick(30000, 300000)
+	{
+		vm, _ := rt.NewVM()
+		var idents sync.Map
+		kinds := []string{"addFunc", "addClass", "addFunc", "setConst"}
+		const k = 4
+		var round, done atomic.Int64
+		res := make([]string, k)
+		var wg sync.WaitGroup
+		for gi := 0; gi < k; gi++ {
+			wg.Add(1)
+			go func(gi int) {
+				defer wg.Done()
+				for d := int64(1); d <= int64(duels); d++ {
+					for round.Load() < d { // spin: all registrants start within nanoseconds of each other
+					}
+					op := kinds[int(d)%len(kinds)]
+					o := c10Op{op, fmt.Sprintf("D%d", d), fmt.Sprintf("f%d", gi+1)}
+					if op == "setConst" {
+						o.arg = fmt.Sprintf("v%d", gi+1)
+					}
+					res[gi] = c10Do(vm, o, &idents)
+					done.Add(1)
+				}
+			}(gi)
+		}
+		for d := int64(1); d <= int64(duels); d++ {
+			round.Store(d)
+			for done.Load() < d*k {
+				gort.Gosched()
+			}
+			op := kinds[int(d)%len(kinds)]
+			oks := 0
+			for _, r := range res {
+				if r == "ok" {
+					oks++
+				}
+			}
+			if oks == 1 && d%200 != 0 {
+				continue // the expected outcome; a sample is still sent through TLC
+			}
+			h := &history{}
+			for gi := 0; gi < k; gi++ {
+				arg := fmt.Sprintf("f%d", gi+1)
+				if op == "setConst" {
+					arg = fmt.Sprintf("v%d", gi+1)
+				}
+				h.Ops = append(h.Ops, histOp{op, arg, res[gi]})
+				h.Ev = append(h.Ev, histEv{"c", gi + 1})
+			}
+			for gi := 0; gi < k; gi++ {
+				h.Ev = append(h.Ev, histEv{"r", gi + 1})
+			}
+			hists = append(hists, h)
+			ids = append(ids, fmt.Sprintf("C10/pass=duel/op=%s/run=%d", op, d))
+		}
+		wg.Wait()
+		totalOps += duels * k
+	}
 	var buf bytes.Buffer
 	for _, h := range hists {
 		b, _ := json.Marshal(h)
@@ -417,6 +479,7 @@ func C10(c *Ctx) *kf.Report {
 			}
 		}
 	}
+	rep.Coverage["duels"] = duels
 	rep.Coverage["race_runs"] = raceRuns
 	rep.Coverage["recorded_calls"] = totalOps
 	rep.Coverage["traces_validated_against_impl"] = len(hists)
